@@ -76,6 +76,7 @@ type vchCtx struct {
 	adds    [][3]int64 // (amt, expiry, hash_id) of earlier adds, for duplicates
 	steps   []map[string]any
 	prev    [2]map[string]any // last emitted dump per party (for "=" compression)
+	prevHL  [2]map[string]any // last emitted height-log dump per party (key "hl")
 	abort   string
 	crash   bool
 	cut     bool
@@ -101,6 +102,108 @@ type vchCtx struct {
 	backend string
 	crashIn bool
 	maxTx   map[string]int // most transactions one call of a kind committed
+
+	// forwarding-package references (refsOn): like the link, every settle /
+	// fail of an incoming HTLC names the Add it answers (sourceRef: height +
+	// index inside the fwd pkg ReceiveRevocation returned when the Add was
+	// locked in) and the place the response came from (destRef: an entry of a
+	// package of a second, dummy channel kept in the same DB).
+	refsOn  bool
+	addRef  [2]map[uint64]channeldb.AddRef // incoming HTLC index -> its Add
+	destIdx [2]map[uint64]uint16           // incoming HTLC index -> dest entry
+	nDest   [2]uint16
+}
+
+// vchDestChan is the dummy "other channel" whose forwarding package (height
+// vchDestHeight, vchDestSlots settle/fail entries, no adds) the destRefs of all
+// responses point into; each party's DB has its own copy.
+var vchDestChan = lnwire.NewShortChanIDFromInt(0x0dead0000001)
+
+const (
+	vchDestHeight = 1
+	vchDestSlots  = 160
+)
+
+// vchInner returns the real kvdb backend below a channel's DB (bypassing the
+// counting wrapper).
+func vchInner(cs *chanstate.OpenChannel) kvdb.Backend {
+	db, ok := cs.Db.(*channeldb.ChannelStateDB)
+	if !ok {
+		return nil
+	}
+	b := db.GetParentDB().Backend
+	if w, ok := b.(*vchStopDB); ok {
+		return w.Backend
+	}
+	return b
+}
+
+func vchMakeDestPkg(cs *chanstate.OpenChannel) error {
+	sfs := make([]channeldb.LogUpdate, vchDestSlots)
+	for i := range sfs {
+		sfs[i] = channeldb.LogUpdate{LogIndex: uint64(i),
+			UpdateMsg: &lnwire.UpdateFulfillHTLC{ID: uint64(i)}}
+	}
+	pkg := channeldb.NewFwdPkg(vchDestChan, vchDestHeight, nil, sfs)
+	return kvdb.Update(vchInner(cs), func(tx kvdb.RwTx) error {
+		return channeldb.NewChannelPackager(vchDestChan).AddFwdPkg(tx, pkg)
+	}, func() {})
+}
+
+// noteFwdPkg records where the Adds of a forwarding package live.
+func (c *vchCtx) noteFwdPkg(p int, pkg *channeldb.FwdPkg) {
+	if !c.refsOn || pkg == nil {
+		return
+	}
+	for i, u := range pkg.Adds {
+		if add, ok := u.UpdateMsg.(*lnwire.UpdateAddHTLC); ok {
+			c.addRef[p][add.ID] = channeldb.AddRef{
+				Height: pkg.Height, Index: uint16(i),
+			}
+		}
+	}
+}
+
+// loadRefs rebuilds p's Add references from the persisted forwarding packages
+// (what a restarted link does).
+func (c *vchCtx) loadRefs(p int) {
+	if !c.refsOn {
+		return
+	}
+	c.addRef[p] = map[uint64]channeldb.AddRef{}
+	pkgs, err := c.ch[p].channelState.LoadFwdPkgs()
+	if err != nil {
+		return
+	}
+	for _, pkg := range pkgs {
+		c.noteFwdPkg(p, pkg)
+	}
+}
+
+// refsFor: the references p's link hands to SettleHTLC / FailHTLC for the
+// incoming HTLC idx (nil when unknown / out of dest slots).
+func (c *vchCtx) refsFor(p int, idx uint64) (*channeldb.AddRef,
+	*channeldb.SettleFailRef) {
+
+	if !c.refsOn {
+		return nil, nil
+	}
+	var src *channeldb.AddRef
+	if r, ok := c.addRef[p][idx]; ok {
+		src = &r
+	}
+	j, ok := c.destIdx[p][idx]
+	if !ok {
+		if c.nDest[p] >= vchDestSlots {
+			return src, nil
+		}
+		j = c.nDest[p]
+		c.nDest[p]++
+		c.destIdx[p][idx] = j
+	}
+	return src, &channeldb.SettleFailRef{
+		Source: vchDestChan, Height: vchDestHeight, Index: j,
+	}
 }
 
 // ---------------------------------------------------------------------------
@@ -441,7 +544,9 @@ func (c *vchCtx) partyDump(lc *LightningChannel) map[string]any {
 // diskX reads the persisted side tables of the channel that NewLightningChannel
 // / the link consume after a restart (only put into RELOAD dumps, key "diskx"):
 // which of the heights remote_h-1, remote_h, remote_h+1 have a revocation-log
-// entry, the forwarding packages [height, #adds, #settle/fails, state], and the
+// entry, the forwarding packages [height, #adds, #settle/fails, state, set bits
+// of the AckFilter, set bits of the SettleFailFilter] of the channel ("fwdpkgs")
+// and of the dummy destination channel ("destpkgs"), and the
 // log indexes of the persisted unsignedAckedUpdates / remoteUnsignedLocalUpdates.
 func vchDiskX(cs *chanstate.OpenChannel) map[string]any {
 	out := map[string]any{}
@@ -460,19 +565,47 @@ func vchDiskX(cs *chanstate.OpenChannel) map[string]any {
 		}
 	}
 	out["revlog"] = revlog
-	pkgs := [][]uint64{}
-	if fp, err := cs.LoadFwdPkgs(); err == nil {
-		for _, f := range fp {
-			pkgs = append(pkgs, []uint64{f.Height, uint64(len(f.Adds)),
-				uint64(len(f.SettleFails)), uint64(f.State)})
+	bits := func(f *channeldb.PkgFilter) []uint16 {
+		l := []uint16{}
+		if f != nil {
+			for i := uint16(0); i < f.Count(); i++ {
+				if f.Contains(i) {
+					l = append(l, i)
+				}
+			}
 		}
-		sort.Slice(pkgs, func(i, j int) bool {
-			return pkgs[i][0] < pkgs[j][0]
+		return l
+	}
+	dumpPkgs := func(fp []*channeldb.FwdPkg) [][]any {
+		pkgs := [][]any{}
+		sort.Slice(fp, func(i, j int) bool {
+			return fp[i].Height < fp[j].Height
 		})
-	} else {
+		for _, f := range fp {
+			pkgs = append(pkgs, []any{f.Height, len(f.Adds),
+				len(f.SettleFails), int(f.State), bits(f.AckFilter),
+				bits(f.SettleFailFilter)})
+		}
+		return pkgs
+	}
+	fp, err := cs.LoadFwdPkgs()
+	if err != nil {
 		out["fwdpkgs_err"] = vchClass(err)
 	}
-	out["fwdpkgs"] = pkgs
+	out["fwdpkgs"] = dumpPkgs(fp)
+	if inner := vchInner(cs); inner != nil {
+		var dp []*channeldb.FwdPkg
+		err := kvdb.View(inner, func(tx kvdb.RTx) error {
+			var err error
+			dp, err = channeldb.NewChannelPackager(vchDestChan).
+				LoadFwdPkgs(tx)
+			return err
+		}, func() { dp = nil })
+		if err != nil {
+			out["destpkgs_err"] = vchClass(err)
+		}
+		out["destpkgs"] = dumpPkgs(dp)
+	}
 	idx := func(us []channeldb.LogUpdate, err error) any {
 		if err != nil {
 			return "err:" + vchClass(err)
@@ -548,6 +681,18 @@ func vchLogDump(u *updateLog) [][]uint64 {
 	return out
 }
 
+// vchHL (work package C01view): the full update logs of one channel object in
+// LIST order with the four commit heights of every entry (vchLogDump format).
+// Emitted per step and party under the step key "hl" ("=" when unchanged), for
+// the initial state under the row key "init_hl", and for every channel object
+// restored from disk under extra.hl_reloaded / extra.hl_reload_before.
+func vchHL(lc *LightningChannel) map[string]any {
+	return map[string]any{
+		"own":  vchLogDump(lc.updateLogs.Local),
+		"peer": vchLogDump(lc.updateLogs.Remote),
+	}
+}
+
 // record appends a step with the dumps of both parties.  A party whose dump
 // is identical to its dump in the previous step is written as "=" (expanded
 // again by props/chan_common.py).
@@ -578,6 +723,25 @@ func (c *vchCtx) record(op []any, res string, extra map[string]any) {
 			c.prev[i] = d
 		}
 	}
+	hl := map[string]any{}
+	for i := 0; i < 2; i++ {
+		var d map[string]any
+		if r := vchSafe(func() error {
+			d = vchHL(c.ch[i])
+			return nil
+		}); r != "ok" {
+			hl[vchNames[i]] = nil
+			c.prevHL[i] = nil
+			continue
+		}
+		if c.prevHL[i] != nil && reflect.DeepEqual(c.prevHL[i], d) {
+			hl[vchNames[i]] = "="
+		} else {
+			hl[vchNames[i]] = d
+			c.prevHL[i] = d
+		}
+	}
+	st["hl"] = hl
 	c.steps = append(c.steps, st)
 }
 
@@ -748,6 +912,7 @@ func (c *vchCtx) doResolve(kind string, p int, idx uint64, mal,
 
 	lc := c.ch[p]
 	var msg lnwire.Message
+	src, dest := c.refsFor(p, idx)
 	res := vchSafe(func() error {
 		switch kind {
 		case "settle":
@@ -761,21 +926,22 @@ func (c *vchCtx) doResolve(kind string, p int, idx uint64, mal,
 			msg = &lnwire.UpdateFulfillHTLC{
 				ChanID: c.chanID, ID: idx, PaymentPreimage: pre,
 			}
-			return lc.SettleHTLC(pre, idx, nil, nil, nil)
+			return lc.SettleHTLC(pre, idx, src, dest, nil)
 		case "fail":
 			reason := []byte("vch-fail")
 			msg = &lnwire.UpdateFailHTLC{
 				ChanID: c.chanID, ID: idx, Reason: reason,
 			}
-			return lc.FailHTLC(idx, reason, nil, nil, nil)
+			return lc.FailHTLC(idx, reason, src, dest, nil)
 		default:
 			sha := sha256.Sum256([]byte("vch-onion"))
 			msg = &lnwire.UpdateFailMalformedHTLC{
 				ChanID: c.chanID, ID: idx, ShaOnionBlob: sha,
 				FailureCode: lnwire.CodeInvalidOnionVersion,
 			}
+			dest = nil // (MalformedFailHTLC takes no destRef)
 			return lc.MalformedFailHTLC(
-				idx, lnwire.CodeInvalidOnionVersion, sha, nil,
+				idx, lnwire.CodeInvalidOnionVersion, sha, src,
 			)
 		}
 	})
@@ -787,6 +953,18 @@ func (c *vchCtx) doResolve(kind string, p int, idx uint64, mal,
 		extra = map[string]any{"mal": 1}
 		if badPre {
 			extra["bad_preimage"] = 1
+		}
+	}
+	if res == "ok" && c.refsOn {
+		if extra == nil {
+			extra = map[string]any{}
+		}
+		extra["src_ref"], extra["dest_ref"] = nil, nil
+		if src != nil {
+			extra["src_ref"] = []uint64{src.Height, uint64(src.Index)}
+		}
+		if dest != nil {
+			extra["dest_ref"] = []uint64{dest.Height, uint64(dest.Index)}
 		}
 	}
 	c.record([]any{kind, vchNames[p], idx}, res, extra)
@@ -916,7 +1094,10 @@ func (c *vchCtx) deliverMsg(p int, m lnwire.Message) string {
 				AuxSigBlob: blob,
 			})
 		case *lnwire.RevokeAndAck:
-			_, _, err := lc.ReceiveRevocation(msg)
+			pkg, _, err := lc.ReceiveRevocation(msg)
+			if err == nil {
+				c.noteFwdPkg(p, pkg)
+			}
 			return err
 		}
 		return fmt.Errorf("vch: unknown message %T", m)
@@ -976,6 +1157,7 @@ func (c *vchCtx) doCrash(p int) {
 			return err
 		}
 		d = c.reloadDump(lc)
+		extra["hl_reloaded"] = vchHL(lc)
 		return nil
 	})
 	if res == "ok" {
@@ -1187,10 +1369,14 @@ func (c *vchCtx) restartCore(extra map[string]any, dead, armP, armK int,
 			return "reload_failed"
 		}
 		c.ch[p] = lc
+		c.loadRefs(p)
 	}
 	reloaded := map[string]any{}
+	hlReloaded := map[string]any{}
+	extra["hl_reloaded"] = hlReloaded
 	for p := 0; p < 2; p++ {
 		reloaded[vchNames[p]] = c.reloadDump(c.ch[p])
+		hlReloaded[vchNames[p]] = vchHL(c.ch[p])
 		// a restarted node hands fresh instances to every subsystem
 		if c.sideOn {
 			_ = c.sideFetch(p)
@@ -1336,6 +1522,7 @@ func (c *vchCtx) doCrashIn(p int, call string, k int) {
 			extra[key] = first[key]
 		}
 		extra["reload_before"] = first["reloaded"].(map[string]any)[vchNames[p]]
+		extra["hl_reload_before"] = first["hl_reloaded"].(map[string]any)[vchNames[p]]
 		if c.maxTx != nil && first["refused"].(int) == 0 &&
 			first["committed"].(int) > c.maxTx["sync"] {
 
@@ -1353,6 +1540,7 @@ func (c *vchCtx) doCrashIn(p int, call string, k int) {
 			return err
 		}
 		before = c.reloadDump(old)
+		extra["hl_reload_before"] = vchHL(old)
 		return nil
 	}); r != "ok" {
 		extra["err_"+vchNames[p]] = "reload:" + r
@@ -2252,9 +2440,17 @@ func TestVerifChan(t *testing.T) {
 					t.Fatalf("vchMigrate(%s): %v", backend, err)
 				}
 			}
+			for _, lc := range []*LightningChannel{a, b} {
+				if err := vchMakeDestPkg(lc.channelState); err != nil {
+					t.Fatalf("vchMakeDestPkg: %v", err)
+				}
+			}
 			c := &vchCtx{
 				db: dbs, backend: backend, crashIn: crashInOn,
-				maxTx: map[string]int{},
+				maxTx:  map[string]int{},
+				refsOn: vEnvInt("VERIF_CHAN_REFS", 1) != 0,
+				addRef: [2]map[uint64]channeldb.AddRef{{}, {}},
+				destIdx: [2]map[uint64]uint16{{}, {}},
 				r: r, ct: ty.ct, ch: [2]*LightningChannel{a, b},
 				chanID: lnwire.NewChanIDFromOutPoint(
 					a.channelState.FundingOutpoint,
@@ -2285,6 +2481,8 @@ func TestVerifChan(t *testing.T) {
 					"a": c.partyDump(a), "b": c.partyDump(b),
 				},
 			}
+			c.prevHL = [2]map[string]any{vchHL(a), vchHL(b)}
+			row["init_hl"] = map[string]any{"a": c.prevHL[0], "b": c.prevHL[1]}
 			if sc != nil {
 				c.freeRev = true
 				c.runScript(sc.Ops)
